@@ -2,6 +2,8 @@
 
 package slip
 
+import "strings"
+
 const (
 	// AmpBody is &body.
 	AmpBody = "&body"
@@ -52,6 +54,20 @@ func (fd *FuncDoc) requiredCount() (cnt int) {
 		cnt++
 	}
 	return
+}
+
+// keyParam returns true if name is one of the &key parameters, which start at
+// Args[start].
+func (fd *FuncDoc) keyParam(start int, name string) bool {
+	for _, a := range fd.Args[start:] {
+		if strings.EqualFold(a.Name, AmpAux) {
+			break
+		}
+		if strings.EqualFold(strings.TrimPrefix(a.Name, ":"), name) {
+			return true
+		}
+	}
+	return false
 }
 
 func (fd *FuncDoc) getArg(name string) *DocArg {
